@@ -30,9 +30,7 @@ fuel pool observations unchanged.  At every effective convert: counts, mass of e
 volume and every volume-integrated total are 3 x the third-core values.  After every creation of
 copies: independence (no shared object, mutation of a copy leaves sources and sibling copies alone).
 """
-import copy
 import math
-import random
 import re
 
 from mcverif import build, explore, observe
@@ -52,7 +50,7 @@ FLUX_TOTALS = {"mgFlux": "flux", "adjMgFlux": "fluxAdj", "mgFluxGamma": "fluxGam
 # bounds (one place)
 
 DEPTH = {"quick": 4, "thorough": 5}
-MAX_ASSIGN = {"quick": 1, "thorough": 2}  # assignments per history in the deep search
+MAX_ASSIGN = {"quick": 1, "thorough": 2}  # assignments per history in the extra thorough search (1 elsewhere)
 
 OPS_ALL = [
     ["convert", "P"],
@@ -70,24 +68,23 @@ OPS_ALL = [
     ["assign", "lower", "mgFlux"],
     ["assign", "interior", "power"],
 ]
-OPS_QUICK = [op for op in OPS_ALL if op != ["addEdge", "F"]]
+OPS_QUICK = [op for op in OPS_ALL if op not in (["addEdge", "F"], ["removeEdge", "F"], ["assign", "interior", "power"])]
 
 SCRIPTS = {
-    # single steps ending in the creation of copies: the (destructive) independence test runs on the last step
-    "convert-only": [["convert", "P"]],
-    "addEdge-only": [["addEdge", "F"]],
-    # same changer reused for two round trips
-    "roundtrip-same-changer": [["convert", "P"], ["restore", "P"], ["convert", "P"], ["restore", "P"]],
+    # the (destructive) independence test runs on the last step of a script when that step creates copies
+    # same changer reused: round trip, then a second conversion
+    "roundtrip-same-changer": [["convert", "P"], ["restore", "P"], ["convert", "P"]],
     # edges on/off, halves combined, then a round trip with a fresh changer, edges again
-    "edges-then-roundtrip": [["addEdge", "P"], ["scaleSym"], ["removeEdge", "P"], ["convert", "F"], ["restore", "F"], ["addEdge", "F"], ["removeEdge", "F"]],
+    "edges-then-roundtrip": [["addEdge", "P"], ["scaleSym"], ["removeEdge", "P"], ["convert", "F"], ["restore", "F"], ["addEdge", "F"]],
     # edge operations on a full core are no-ops; parameters assigned in full core come back as thirds
-    "full-core-noops": [["convert", "F"], ["addEdge", "P"], ["removeEdge", "P"], ["scaleSym"], ["assign", "centre", "power"], ["assign", "lower", "power"], ["restore", "F"]],
-    # conversion of a core that currently holds edge assemblies, then its undo
+    "full-core-noops": [["convert", "F"], ["addEdge", "P"], ["removeEdge", "P"], ["assign", "centre", "power"], ["assign", "lower", "power"], ["restore", "F"], ["removeEdge", "F"]],
+    # conversion of a core that currently holds edge assemblies (both halves written), then its undo
     "convert-with-edges": [["addEdge", "P"], ["assign", "lower", "power"], ["convert", "F"], ["restore", "F"]],
     # parameter first assigned between two conversions by the same changer
     "assign-between-conversions": [["assign", "centre", "power"], ["convert", "P"], ["assign", "centre", "power"], ["restore", "P"], ["assign", "centre", "mgFlux"], ["assign", "interior", "power"], ["convert", "P"], ["restore", "P"]],
 }
-SCRIPTS_THOROUGH_WIDE = ["convert-only", "addEdge-only", "roundtrip-same-changer", "edges-then-roundtrip", "assign-between-conversions"]
+SCRIPTS_QUICK_WIDE = ["roundtrip-same-changer", "edges-then-roundtrip", "convert-with-edges", "assign-between-conversions"]  # 3-ring family, quick (thorough: all)
+SCRIPTS_THOROUGH_WIDE = ["roundtrip-same-changer", "edges-then-roundtrip", "assign-between-conversions"]  # 4-ring family
 
 
 def wide_inits(quick, seed):
@@ -124,22 +121,23 @@ def special_inits(quick, seed):
 
 
 def deep_inits(quick, seed):
-    ops = OPS_QUICK if quick else OPS_ALL
-    maps = [
+    """(init, depth) pairs of the deep search."""
+    small = [
         [(0, 0), (1, 0), (2, -1)],  # centre + interior + symmetry-line cell
         [(0, 1), (2, -1), (2, 0)],  # no centre assembly, hole in ring 2
         [(0, 0), (0, 1), (1, 1)],  # no cell on the symmetry line
     ]
-    out = [{"rings": 3, "cells": [list(c) for c in m], "seed": seed, "ops": ops, "max_assign": MAX_ASSIGN["quick" if quick else "thorough"]} for m in maps]
-    full = {"rings": 3, "cells": [list(c) for c in build.third_core_cells(3)], "seed": seed, "ops": ops, "max_assign": MAX_ASSIGN["quick" if quick else "thorough"]}
+    ops = OPS_QUICK if quick else OPS_ALL
+    tier = "quick" if quick else "thorough"
+    out = [({"rings": 3, "cells": [list(c) for c in m], "seed": seed, "ops": ops, "max_assign": 1}, DEPTH[tier]) for m in small]
+    # the complete 3-ring map with pin lattices, one depth less (every execution costs 3x)
+    full = {"rings": 3, "cells": [list(c) for c in build.third_core_cells(3)], "pins": True, "seed": seed, "ops": ops, "max_assign": 1}
     if quick:
-        # the complete 3-ring map, structural operations and one assignment kind only
         full["ops"] = [op for op in ops if op[0] != "assign" or op[1:] == ["centre", "mgFlux"]]
-        full["pins"] = True
-        full["depth"] = 3
-    else:
-        full["pins"] = True
-    out.append(full)
+    out.append((full, DEPTH[tier] - 1))
+    if not quick:
+        # two assignments per history, one depth less, on the richest small map
+        out.append(({"rings": 3, "cells": [list(c) for c in small[0]], "seed": seed, "ops": ops, "max_assign": MAX_ASSIGN[tier]}, DEPTH[tier] - 1))
     return out
 
 
@@ -572,17 +570,20 @@ def compare_totals(pre, post, qual):
     want_n = 3 * (pre["n"] - pre["centre"]) + pre["centre"]
     if post["n"] != want_n:
         bad("assembly-count", "full core holds %d assemblies, 3 x %d third-core assemblies with the centre once = %d" % (post["n"], pre["n"], want_n))
+    mv = []
     if not close(post["vol"], 3.0 * pre["vol"]):
-        bad("volume", "core volume %r after conversion, 3 x third-core volume = %r" % (post["vol"], 3.0 * pre["vol"]))
+        mv.append("core volume %r after conversion, 3 x third-core volume = %r" % (post["vol"], 3.0 * pre["vol"]))
     if not close(post["massTotal"], 3.0 * pre["massTotal"]):
-        bad("mass", "core mass %r after conversion, 3 x third-core mass = %r" % (post["massTotal"], 3.0 * pre["massTotal"]))
+        mv.append("core mass %r after conversion, 3 x third-core mass = %r" % (post["massTotal"], 3.0 * pre["massTotal"]))
     if not close(post["massU235"], 3.0 * pre["massU235"]):
-        bad("nuclide-mass", "core.getMass(U235) %r after conversion, 3 x %r before" % (post["massU235"], pre["massU235"]))
+        mv.append("core.getMass(U235) %r after conversion, 3 x %r before" % (post["massU235"], pre["massU235"]))
     for n in sorted(set(pre["mass"]) | set(post["mass"])):
         a, b = post["mass"].get(n, 0.0), 3.0 * pre["mass"].get(n, 0.0)
         if not close(a, b):
-            bad("nuclide-mass", "mass of %s is %r after conversion, 3 x third-core mass = %r" % (n, a, b))
+            mv.append("mass of %s is %r after conversion, 3 x third-core mass = %r" % (n, a, b))
             break
+    if mv:
+        bad("mass-volume", "; ".join(mv))
     badp = []
     for pn in sorted(set(pre["vi"]) | set(post["vi"])):
         if pn not in pre["vi"] or pn not in post["vi"]:
@@ -596,11 +597,14 @@ def compare_totals(pre, post, qual):
             "volint",
             "volume-integrated totals over all blocks are not 3 x the third-core totals for %s; e.g. %s: %r, expected %r" % ([p[0] for p in badp][:8], badp[0][0], badp[0][1], badp[0][2]),
         )
+    reported = {p[0] for p in badp}
     for pn, v in pre.get("calc", {}).items():
+        if pn in reported:
+            continue  # the same numbers through another query
         if pn in post.get("calc", {}) and not close(post["calc"][pn], 3.0 * v):
             bad("calcTotalParam", "calcTotalParam(%s) = %r after conversion, 3 x %r before" % (pn, post["calc"][pn], v))
             break
-    if "calcSym" in pre and "calcSym" in post and not close(pre["calcSym"], post["calcSym"]):
+    if "power" not in reported and "calcSym" in pre and "calcSym" in post and not close(pre["calcSym"], post["calcSym"]):
         bad("calcTotalParam-symmetric", "calcTotalParam(power, addSymmetricPositions=True) %r in third core, %r in full core" % (pre["calcSym"], post["calcSym"]))
     return vs
 
@@ -700,10 +704,16 @@ def step(S, M, op, check):
             if added != set(cands):
                 vs.append(("c13/addEdge/cells", "addEdgeAssemblies filled %s, the images of the 0-degree-line assemblies are %s" % (sorted(added), sorted(cands))))
                 return "edge-added", vs
+            halved = 0
             for img, c in cands.items():
-                M.copies[img] = {"src": c, "k": 0, "kind": "edge", "exp": expected_copy(M.orig[c], img, 0, True), "strip": True}
+                # the property does not say what a half assembly holds: a uniform factor 1/2 (cut in two)
+                # or 1 on its volume-integrated parameters is accepted, whichever is observed
+                tw, src = assembly_at(S, img)[0].p.power, S.orig[c][0].p.power
+                half = not close(tw, src)
+                halved += 1 if half else 0
+                M.copies[img] = {"src": c, "k": 0, "kind": "edge", "exp": expected_copy(M.orig[c], img, 0, half), "strip": True}
             S.edge_belief[tag] = True
-            return "edge-added", vs
+            return ("edge-added" if halved == len(cands) else "edge-added-unhalved"), vs
         if kind == "removeEdge":
             S.edge_ops += 1
             if op[1] == "P":
@@ -738,6 +748,14 @@ def step(S, M, op, check):
             b = S.orig[cell][0]
             b.p[pname] = val
             M.orig[cell]["children"][0]["params"][pname] = observe.canon_value(val)
+            if tkind == "lower" and M.domain == "third":
+                # a solver that runs with edge assemblies writes both halves of the cut assembly
+                t = rot_cell(cell, 1)
+                rec = M.copies.get(t)
+                if rec and rec["kind"] == "edge":
+                    assembly_at(S, t)[0].p[pname] = list(val) if isinstance(val, list) else val
+                    rec["exp"]["children"][0]["params"][pname] = observe.canon_value(val)
+                    rec.pop("exp_norm", None)
             return "assigned", vs
     except Exception as e:  # no operation of the alphabet has a refusal contract in these states
         import traceback
@@ -832,7 +850,7 @@ def check_state(S, M, opname):
         if M.domain == "full" and want != M.closure():
             raise RuntimeError("model error: full-core cells are not the rotation closure")
         if opname == "restore" and not extra and all(cell_kind(c) == "upper" for c in missing):
-            bad("edge-assemblies-not-restored", "the core held edge assemblies at %s before the conversion; after restorePreviousGeometry they are gone" % missing)
+            vs.append(("c13/restore/edge-assemblies-not-restored", "the core held edge assemblies at %s before the conversion; after restorePreviousGeometry they are gone" % missing))
         else:
             bad("cells", "occupied cells differ from the %s: missing %s, unexpected %s" % ("closure of the third-core cells under 120-degree rotation" if M.domain == "full" else "third-core cells", missing, extra))
         return vs, o
@@ -1042,20 +1060,20 @@ def hidden(S):
 
     bit = parameters.SINCE_LAST_GEOMETRY_TRANSFORMATION
     flagged = sorted(pd.name for pd in S.core.getFirstBlock().p.paramDefs if pd.name in names()["volint"] and pd.assigned & bit)
-    return {"P3": third(S.P3), "F3": third(S.F3), "PE": edge(S.PE), "FE": edge(S.FE), "flags": flagged, "F3active": S.F3tag}
+    return {"P3": third(S.P3), "F3": third(S.F3), "PE": edge(S.PE), "FE": edge(S.FE), "flags": flagged}
 
 
 def model_digest(M):
     parts = []
     for c in sorted(M.orig):
-        o = fcopy(M.orig[c])
+        o = norm_assembly(M.orig[c])  # rounded: x3 then :3 must land on the same canonical state
         for node, _ in walk(o):
             node.pop("serial", None)
         parts.append([list(c), o])
     for c in sorted(M.copies):
         rec = M.copies[c]
         parts.append([list(c), list(rec["src"]), rec["k"], rec["kind"], observe.digest(norm_assembly(rec["exp"], False, True))])
-    return observe.digest([M.domain, M.active, sorted(map(list, M.edge_backup)), parts, sorted(M.nassign.items())])
+    return observe.digest([M.domain, M.active and M.active[0], sorted(map(list, M.edge_backup)), parts, sorted(M.nassign.items())])
 
 
 def full_digest(S, M, o):
@@ -1123,8 +1141,8 @@ def _run(item, every_step):
             if not vs and last:
                 if not every_step:
                     # canonical form first: the independence test below modifies the copies
-                    res["canon"], res["full"], res["ops"] = [model_digest(M), hidden(S)], full_digest(S, M, o), enabled_ops(S, M, item)
-                if out in ("converted", "edge-added"):
+                    res["canon"], res["full"], res["ops"] = [model_digest(M), hidden(S), [M.active is not None and M.active == S.F3tag, sorted(k for k, v in S.edge_belief.items() if v and k in ("P", S.FEtag))]], full_digest(S, M, o), enabled_ops(S, M, item)
+                if out in ("converted", "edge-added", "edge-added-unhalved"):
                     vs = check_independence(S, M, opname)
         if vs:
             case = {"init": init, "hist": hist[: k + 1], "outs": outcomes[:k], "every_step": bool(every_step)}
@@ -1137,7 +1155,7 @@ def _run(item, every_step):
         if terminal:
             res["canon"], res["full"], res["ops"] = "terminal:" + repr(hist), None, []
         elif "canon" not in res:
-            res["canon"], res["full"], res["ops"] = [model_digest(M), hidden(S)], full_digest(S, M, o), enabled_ops(S, M, item)
+            res["canon"], res["full"], res["ops"] = [model_digest(M), hidden(S), [M.active is not None and M.active == S.F3tag, sorted(k for k, v in S.edge_belief.items() if v and k in ("P", S.FEtag))]], full_digest(S, M, o), enabled_ops(S, M, item)
     return res
 
 
@@ -1151,6 +1169,13 @@ def run_script(item):
 
 
 def evaluate(case):
+    if "other" in case:  # differential oracle of explore.bfs: two histories, one canonical state
+        a = _run({"init": case["init"], "hist": case["hist"], "outs": []}, False)
+        b = _run({"init": case["init"], "hist": case["other"], "outs": []}, False)
+        vs = a["viols"] + b["viols"]
+        if not vs and a["canon"] == b["canon"] and a["full"] != b["full"]:
+            vs.append(mc.viol("c13/differential", "histories %s and %s reach the same canonical state with different full observations" % (case["hist"], case["other"]), case))
+        return vs
     item = {"init": case["init"], "hist": case["hist"], "outs": case.get("outs") or []}
     return _run(item, bool(case.get("every_step")))["viols"]
 
@@ -1160,15 +1185,14 @@ def run(ctx):
     seed = ctx.seed
     total = {}
     deep = deep_inits(quick, seed)
-    for init in deep:
-        d = init.pop("depth", DEPTH[ctx.tier])
+    for init, d in deep:
         st = explore.bfs(ctx, MOD, [init], depth=d)
         explore.merge_stats(total, st)
         for k, v in st["outcomes"].items():
             ctx.count("deep_outcome_" + k, v)
     # wide family: every map x scripted histories, invariant after every step
     inits = wide_inits(quick, seed)
-    names_ = list(SCRIPTS) if quick else SCRIPTS_THOROUGH_WIDE
+    names_ = SCRIPTS_QUICK_WIDE if quick else list(SCRIPTS)
     items = []
     for init in inits:
         kinds = {cell_kind(c) for c in init["cells"]}
@@ -1199,17 +1223,18 @@ def run(ctx):
         total,
         {
             "deep_depth": DEPTH[ctx.tier],
-            "deep_maps": [i["cells"] for i in deep],
+            "deep_searches": [{"cells": i["cells"], "pins": bool(i.get("pins")), "depth": d, "max_assign": i["max_assign"], "operations": len(i["ops"])} for i, d in deep],
             "wide_maps": len(inits),
             "wide_scripts": {k: SCRIPTS[k] for k in names_},
+            "wide_scripts_4ring_family": [] if quick else SCRIPTS_THOROUGH_WIDE,
             "wide_checked_steps": wsteps,
             "alphabet": OPS_QUICK if quick else OPS_ALL,
         },
     )
     ctx.coverage["exhaustive"] = False  # depth-bounded
     ctx.assumptions += [
-        "deep search: %d maps (centre+interior+line cell; no centre; no line cell; complete 3-ring map with pin lattices), every history of the alphabet up to depth %d with at most %d parameter assignments per history" % (len(deep), DEPTH[ctx.tier], MAX_ASSIGN[ctx.tier])
-        + (" (complete 3-ring map: depth 3, one assignment kind)" if quick else ""),
+        "deep search: every history of the alphabet up to depth %d with at most one parameter assignment on three 3-assembly maps (centre+interior+line cell; no centre; no line cell), up to depth %d on the complete 3-ring map with pin lattices" % (DEPTH[ctx.tier], DEPTH[ctx.tier] - 1)
+        + (" (there: one assignment kind)" if quick else "; up to depth %d with two assignments on the first map" % (DEPTH[ctx.tier] - 1)),
         "wide family: every subset with >= 2 cells of the 7 in-domain cells within 3 rings"
         + ("" if quick else " and, within 4 rings, every subset of those 7 cells combined with none/exactly one/all six ring-4 cells")
         + ", each with the scripted histories listed in coverage.wide_scripts, invariant evaluated after every step; a script stops at its first violation",
